@@ -1,12 +1,18 @@
 import JsonPathVerif.ParserWT
 /-! C07, integer range: whatever pair tree pest hands to the builder, every integer of an index selector, a slice bound or step,
-or a singular-query index in a query the builder accepts lies in the I-JSON range ±(2^53-1).  (Integer LITERALS in comparisons
-are also range-checked by `parseNumber`; RFC 9535 does not clearly demand that, so it is not part of this statement.) -/
+or a singular-query index in a query the builder accepts lies in the I-JSON range ±(2^53-1), and every number LITERAL is an integer
+in that range or a decimal that rounds to a finite double (`rgLit`).  (RFC 9535 does not clearly demand the literal part – the oracle
+abstains on such strings –, but it is what keeps comparisons inside the exact-number domain: see D30.) -/
 namespace JP
 
 def inRangeB (i : Int) : Bool := decide (-9007199254740991 ≤ i ∧ i ≤ 9007199254740991)
 def oInRange : Option Int → Bool | none => true | some i => inRangeB i
 def sqRange : SQSeg → Bool | .index i => inRangeB i | .name _ => true
+/-- a number literal the crate can hold: an integer in the I-JSON range, a float that rounds to a finite double -/
+def rgLit : Literal → Bool
+  | .int i => inRangeB i
+  | .float n d => f64Finite n d
+  | _ => true
 
 mutual
 def rgSeg : Segment → Bool
@@ -40,7 +46,7 @@ def rgTest : Test → Bool
   | .abs ss => rgSegs ss
   | .fn f => rgFn f
 def rgCmp : Comparable → Bool
-  | .lit _ => true
+  | .lit l => rgLit l
   | .sq _ segs => segs.all sqRange
   | .fn f => rgFn f
 def rgFn : TestFunction → Bool
@@ -54,7 +60,7 @@ def rgArgs : List FnArg → Bool
   | [] => true
   | a :: as => rgArg a && rgArgs as
 def rgArg : FnArg → Bool
-  | .lit _ => true
+  | .lit l => rgLit l
   | .test t => rgTest t
   | .filter f => rgFlt f
 end
@@ -159,6 +165,55 @@ theorem sqSegB_rg (inp : Inp) (r : PairT) (sg : SQSeg) (h : sqSegB inp r = .ok s
     subst e
     cases ok_pure _ _ h4; exact hr
   · simp [err] at h
+
+theorem parseNumber_rg (num : Str) (l : Literal) (h : parseNumber num = .ok l) : rgLit l = true := by
+  unfold parseNumber at h
+  simp only at h
+  split at h
+  · split at h
+    · rename_i n d _
+      split at h
+      · rename_i hfin; cases ok_pure _ _ h; simpa [rgLit] using hfin
+      · cases h
+    · cases h
+  · split at h
+    · rename_i v _
+      by_cases h1 : v > MAXV
+      · simp [h1, err] at h
+      · by_cases h2 : v < -MAXV
+        · simp [h1, h2, err] at h
+        · simp only [h1, h2, decide_false, Bool.or_self, Bool.false_eq_true, if_false] at h
+          cases ok_pure _ _ h
+          simp only [MAXV] at h1 h2
+          simp [rgLit, inRangeB]; omega
+    · cases h
+theorem parseString_rg (str : Str) (l : Literal) (h : parseString str = .ok l) : rgLit l = true := by
+  unfold parseString at h
+  cases hv : validateJsStr (trim str) with
+  | error e => simp [hv, bind, Except.bind] at h
+  | ok s' =>
+    simp only [hv, bind, Except.bind] at h
+    by_cases c1 : (s'.head? == some '\'' && s'.getLast? == some '\'') = true
+    · simp only [c1, if_true] at h; cases ok_pure _ _ h; rfl
+    · by_cases c2 : (s'.head? == some '"' && s'.getLast? == some '"') = true
+      · simp only [c1, c2, if_true, Bool.false_eq_true, if_false] at h; cases ok_pure _ _ h; rfl
+      · simp [c1, c2, err] at h
+theorem literalB_rg (inp : Inp) (rule : PairT) (l : Literal) (h : literalB inp rule = .ok l) : rgLit l = true := by
+  unfold literalB at h
+  cases hf : firstInner rule with
+  | error e => simp [hf, bind, Except.bind] at h
+  | ok first =>
+    simp only [hf, bind, Except.bind] at h
+    split at h
+    · exact parseString_rg _ l h
+    · exact parseNumber_rg _ l h
+    · split at h
+      · cases ok_pure _ _ h; rfl
+      · split at h
+        · cases ok_pure _ _ h; rfl
+        · simp [err] at h
+    · cases ok_pure _ _ h; rfl
+    · simp [err] at h
 
 theorem singularB_rg (inp : Inp) (rule : PairT) (c : Comparable) (h : singularB inp rule = .ok c) : rgCmp c = true := by
   unfold singularB at h
@@ -281,7 +336,7 @@ theorem builderRG_succ (fuel : Nat) (ih : BuilderRG fuel) : BuilderRG (fuel + 1)
       simp only [hf] at h
       split at h
       · split at h
-        · cases ok_pure _ _ h; rfl
+        · cases ok_pure _ _ h; simpa [rgArg] using literalB_rg _ _ _ (by assumption)
         · cases h
       · cases ht : testB fuel inp next with
         | error e => simp [ht] at h
@@ -406,7 +461,7 @@ theorem builderRG_succ (fuel : Nat) (ih : BuilderRG fuel) : BuilderRG (fuel + 1)
       simp only [hf] at h
       split at h
       · split at h
-        · cases ok_pure _ _ h; rfl
+        · cases ok_pure _ _ h; simpa [rgCmp] using literalB_rg _ _ _ (by assumption)
         · cases h
       · exact singularB_rg inp rule c h
       · cases hfe : functionExprB fuel inp rule with
